@@ -14,10 +14,17 @@ ElemKey(e) == LET P == {k \in 1..Len(R.ek) : R.ek[k][1] = e} IN IF P = {} THEN 0
 SetOf(s) == {s[k] : k \in 1..Len(s)}
 \* a sweep = one step per reported element (it removed exactly that element of its key) + for every key of which it
 \* reported nothing, one step at which that key held no expired element
+\* (a key of which the sweep reported nothing while another operation on that key overlapped the sweep is not constrained: the
+\*  sweep removes an element only if it is still the one it examined - the repair of D2 -, so when the expired element it looked at
+\*  is replaced under it, even by another expired one, it rightly leaves the key alone; the statement forbids removing what has not
+\*  expired, it does not promise that one sweep removes everything that has)
+Touches(o, x) == o.op.m \in {"clos", "cdelete", "sweep"} /\ (o.op.m = "sweep" \/ o.op.k = x)
+Overlapped(h, x) == \E k \in 1..Len(R.ops) : LET o == R.ops[k] IN
+                       ~(o.t = h.t /\ o.i = h.i) /\ Touches(o, x) /\ o.call < h.ret /\ h.call < o.ret
 Expand(h) == IF h.op.m # "sweep" THEN {[id |-> <<h.t, h.i, 0>>, op |-> h.op, res |-> h.res, call |-> h.call, ret |-> h.ret]}
              ELSE {[id |-> <<h.t, h.i, 1000 + e>>, call |-> h.call, ret |-> h.ret, op |-> [m |-> "sweepelem", k |-> ElemKey(e), v |-> e], res |-> <<e, TRUE>>] : e \in SetOf(h.res)}
                   \cup {[id |-> <<h.t, h.i, k>>, call |-> h.call, ret |-> h.ret, op |-> [m |-> "sweepkey", k |-> k, v |-> 0], res |-> <<0, FALSE>>]
-                         : k \in {x \in KeysOf : \A e \in SetOf(h.res) : ElemKey(e) # x}}
+                         : k \in {x \in KeysOf : (\A e \in SetOf(h.res) : ElemKey(e) # x) /\ ~Overlapped(h, x)}}
 Ops == UNION {Expand(R.ops[k]) : k \in 1..Len(R.ops)}
 
 C14_NoCrash         == J => (~R.panic /\ ~R.stuck)
